@@ -101,6 +101,12 @@ class BoundBuiltin(object):
         self.recv = recv
         self.name = name
 
+    def __eq__(self, o):
+        return isinstance(o, BoundBuiltin) and self.recv is None and o.recv is None and self.name == o.name
+
+    def __hash__(self):
+        return hash(('BB', self.name))
+
 
 class Env(object):
     def __init__(self, parent=None, mod=None):
@@ -627,10 +633,14 @@ class Interp(object):
                 return _eq(a, b)
             if isinstance(op, ast.NotEq):
                 return not _eq(a, b)
+            if isinstance(op, (ast.Is, ast.IsNot)) and isinstance(a, BoundBuiltin) and isinstance(b, BoundBuiltin):
+                return (a == b) == isinstance(op, ast.Is)
             if isinstance(op, ast.Is):
                 return a is b or (a is None and b is None) or (type(a) in (bool, int, str) and _eq(a, b))
             if isinstance(op, ast.IsNot):
                 return not (a is b or (type(a) in (bool, int, str) and _eq(a, b)))
+            if isinstance(op, ast.In) and type(b).__name__ == 'CtxV':
+                return a in b.d
             if isinstance(op, ast.In):
                 if isinstance(b, (dict, set, frozenset, list, tuple, str, bytes, range)):
                     return a in b if _hashable(a) or isinstance(b, (list, tuple)) else False
@@ -665,6 +675,8 @@ class Interp(object):
         return self.getattr(o, e.attr)
 
     def getattr(self, o, name):
+        if type(o).__name__ == 'CtxV':
+            return o.d[name] if name in o.d else Unknown('ctx field %s not in case' % name)
         if isinstance(o, Obj):
             if name in o.attrs:
                 return o.attrs[name]
@@ -698,6 +710,8 @@ class Interp(object):
                 return o[lo:hi:st]
             return Unknown('slice')
         k = self.eval(e.slice, env)
+        if type(o).__name__ == 'CtxV':
+            return o.d[k] if _hashable(k) and k in o.d else Unknown('ctx field %r not in case' % (k,))
         if isinstance(o, Unknown) or isinstance(k, Unknown):
             return Unknown('subscript')
         try:
@@ -898,6 +912,10 @@ class Interp(object):
                 if n == 'isinstance':
                     return Unknown('isinstance')
                 if n == 'type':
+                    for tn, tt in (('bool', bool), ('int', int), ('str', str), ('bytes', bytes), ('list', list),
+                                   ('tuple', tuple), ('dict', dict), ('float', float)):
+                        if type(args[0]) is tt:
+                            return BoundBuiltin(None, tn)
                     return Unknown('type')
                 if n == 'print':
                     return None
